@@ -330,7 +330,12 @@ def render(t, L, enc, style, junk, eol=b"\n", unterminated=False):
                 body = "$HEX[" + p.encode(enc).hex() + "]"
                 n_hex += 1
             pad = b" " * t.draw(3)
-            lines.append(pad + str(n).encode() + b" " + body.encode(enc))
+            parts = 1
+            if n >= 2 and t.chance(1, 3):
+                # two `uniq -c` outputs merged: the same "n password" line several times in a row, byte for byte
+                parts = t.choice([d for d in (2, 3, 4) if n % d == 0] or [1])
+            for _ in range(parts):
+                lines.append(pad + str(n // parts).encode() + b" " + body.encode(enc))
             i = j + 1
         else:
             if style == "hex" and t.chance(1, 2):
